@@ -109,6 +109,11 @@ struct Cfg {
   bool temperature = false;
   bool trackers = false;
   long nbuffers = 0, ntasks = 0, queue = 0; // 0 = derive
+  // fraction of launched packets that the harness redirects onto lattice
+  // directions (through cell corners and along cell edges), so that the edge
+  // and corner hand-over classes, which random directions never produce, are
+  // exercised
+  double special = 0.;
   Sched sched;
 
   Json to_json() const {
@@ -168,6 +173,7 @@ struct Cfg {
     j["nbuffers"] = (long long)nbuffers;
     j["ntasks"] = (long long)ntasks;
     j["queue"] = (long long)queue;
+    j["special"] = dbl_bits(special);
     j["sched"] = sched.to_json();
     return j;
   }
@@ -212,6 +218,7 @@ struct Cfg {
     c.nbuffers = j.at("nbuffers").as_int(0);
     c.ntasks = j.at("ntasks").as_int(0);
     c.queue = j.at("queue").as_int(0);
+    c.special = j.has("special") ? bits_dbl(j.at("special").as_string()) : 0.;
     c.sched = Sched::from_json(j.at("sched"));
     return c;
   }
@@ -606,6 +613,41 @@ public:
     }
   }
 
+  // every copy holds the same cell contents as its original when an
+  // iteration starts (the new state was pushed to the copies)
+  void check_copy_state() {
+    const size_t nall = creator->number_of_actual_subgrids();
+    for (size_t c = (size_t)lay.norig(); c < nall && !failed; ++c) {
+      DensitySubGrid &cp = *creator->get_subgrid(c);
+      DensitySubGrid &og = *creator->get_subgrid((size_t)original_of[c]);
+      auto ic = cp.begin();
+      auto io = og.begin();
+      for (; ic != cp.end() && io != og.end(); ++ic, ++io) {
+        const IonizationVariables &a = ic.get_ionization_variables();
+        const IonizationVariables &b = io.get_ionization_variables();
+        // bitwise: metal fractions can legitimately be NaN (zero rates)
+        auto same_bits = [](double u, double v) {
+          return memcmp(&u, &v, sizeof(double)) == 0;
+        };
+        bool same = same_bits(a.get_number_density(), b.get_number_density());
+        for (int ion = 0; ion < NUMBER_OF_IONNAMES; ++ion)
+          if (!same_bits(a.get_ionic_fraction(ion), b.get_ionic_fraction(ion)))
+            same = false;
+        if (!same) {
+          fail("copy-state",
+               sfmt("iteration %d starts with copy %zu of subgrid %d holding "
+                    "cell contents that differ from the original (cell %u: "
+                    "neutral fraction %.17g vs %.17g)",
+                    iteration, c, original_of[c], (unsigned)ic.get_index(),
+                    a.get_ionic_fraction(ION_H_n),
+                    b.get_ionic_fraction(ION_H_n)));
+          return;
+        }
+      }
+    }
+    ++stats["copy_state_checks"];
+  }
+
   void begin_segment(Packet &pk, const PhotonPacket &p, uint64_t id) {
     if (!record_segments)
       return;
@@ -656,6 +698,7 @@ public:
         check_structure();
       if (record_segments)
         snapshot_cells();
+      check_copy_state();
       break;
     }
     case CMI_VERIF_EVENT_PACKET_LAUNCH: {
@@ -667,6 +710,40 @@ public:
       pk.state = LIVE;
       ++launched;
       ++stats[y == 0 ? "launched_discrete" : "launched_continuous"];
+      if (lay.cfg.special > 0. && (size_t)x < original_of.size()) {
+        Rng sr(mix64((uint64_t)lay.cfg.seed * 7919u + 13u, id));
+        if (sr.chance(lay.cfg.special)) {
+          // lattice direction through a cell corner of the launch subgrid
+          int sg[3];
+          do {
+            for (int k = 0; k < 3; ++k)
+              sg[k] = (int)sr.range(-1, 1);
+            // a direction confined to periodic axes can only end by
+            // absorption (millions of box crossings in ionised gas)
+            bool leaves = lay.cfg.periodic[0] && lay.cfg.periodic[1] &&
+                          lay.cfg.periodic[2];
+            for (int k = 0; k < 3; ++k)
+              if (sg[k] != 0 && !lay.cfg.periodic[k])
+                leaves = true;
+            if (!leaves)
+              sg[0] = sg[1] = sg[2] = 0;
+          } while (sg[0] == 0 && sg[1] == 0 && sg[2] == 0);
+          const double norm =
+              std::sqrt((double)(sg[0] * sg[0] + sg[1] * sg[1] + sg[2] * sg[2]));
+          double box[6];
+          (*creator->get_subgrid((size_t)x)).get_grid_box(box);
+          CoordinateVector<> pos, dir;
+          for (int k = 0; k < 3; ++k) {
+            const int nc = lay.cfg.ncell[k] / lay.cfg.nsub[k];
+            const long ci = sr.range(0, nc - 1);
+            pos[k] = box[k] + (double)ci * (box[3 + k] / nc);
+            dir[k] = sg[k] / norm;
+          }
+          p.set_position(pos);
+          p.set_direction(dir);
+          ++stats["launched_on_lattice_direction"];
+        }
+      }
       begin_segment(pk, p, id);
       // the packet must start inside the subgrid it is handed to
       {
@@ -737,6 +814,26 @@ public:
         }
         pk->in_task = me;
         t.ids.push_back(id);
+        if (getenv("EION_DEBUG_ID") &&
+            (uint64_t)atol(getenv("EION_DEBUG_ID")) == id) {
+          double bx[6];
+          (*creator->get_subgrid((size_t)x)).get_grid_box(bx);
+          fprintf(stderr,
+                  "  sys: task type %d on subgrid %ld (original %d) box lo "
+                  "(cells) %.3f %.3f %.3f, buffer dir %d, packet pos (cells) "
+                  "%.6f %.6f %.6f dir %.3f %.3f %.3f tau %.6g\n",
+                  t.type, x, original_of[(size_t)x],
+                  (bx[0] - lay.cfg.anchor[0]) / lay.cell[0],
+                  (bx[1] - lay.cfg.anchor[1]) / lay.cell[1],
+                  (bx[2] - lay.cfg.anchor[2]) / lay.cell[2],
+                  (int)buf.get_direction(),
+                  (buf[i].get_position()[0] - lay.cfg.anchor[0]) / lay.cell[0],
+                  (buf[i].get_position()[1] - lay.cfg.anchor[1]) / lay.cell[1],
+                  (buf[i].get_position()[2] - lay.cfg.anchor[2]) / lay.cell[2],
+                  buf[i].get_direction()[0], buf[i].get_direction()[1],
+                  buf[i].get_direction()[2],
+                  buf[i].get_target_optical_depth());
+        }
         // hand-over invariant
         if (check_handover && t.type == TASKTYPE_PHOTON_TRAVERSAL &&
             buf.get_direction() != TRAVELDIRECTION_INSIDE)
